@@ -64,6 +64,7 @@ __all__ = [
     "GIT_PROTOCOL_VERSIONS",
     "KNOWN_RECEIVE_CAPABILITIES",
     "KNOWN_UPLOAD_CAPABILITIES",
+    "MAX_PKT_LINE_DATA_LENGTH",
     "MULTI_ACK",
     "MULTI_ACK_DETAILED",
     "NAK_LINE",
@@ -355,6 +356,11 @@ def parse_cmd_pkt(line: bytes) -> tuple[bytes, list[bytes]]:
     return cmd, args[:-1].split(b"\0")
 
 
+# A pkt-line is at most 65520 bytes long, including its 4-byte length prefix
+# (LARGE_PACKET_MAX in git); a longer payload does not fit the 4 hex digits.
+MAX_PKT_LINE_DATA_LENGTH = 65520 - 4
+
+
 def pkt_line(data: bytes | None) -> bytes:
     """Wrap data in a pkt-line.
 
@@ -365,6 +371,10 @@ def pkt_line(data: bytes | None) -> bytes:
     """
     if data is None:
         return b"0000"
+    if len(data) > MAX_PKT_LINE_DATA_LENGTH:
+        raise ValueError(
+            f"pkt-line payload too long: {len(data)} > {MAX_PKT_LINE_DATA_LENGTH} bytes"
+        )
     return f"{len(data) + 4:04x}".encode("ascii") + data
 
 
